@@ -166,7 +166,7 @@ LinkedList *bufr_load_tables_list ( char *path, int tbnos[], int nb )
       if( stat(filename,&buf) == 0 )
          if ( !S_ISDIR( buf.st_mode ) )
             rtrnD = bufr_load_m_tableD( tables, filename );
-      ltables = bufr_use_tables_list( list, version );
+      ltables = bufr_use_tables_list( list, tables->master.version );
       if (ltables && (tables->master.version == ltables->master.version))
          {
          if (bufr_is_debug())
